@@ -421,6 +421,9 @@ func genW(c *Ctx) {
 		spec := specOf(m)
 		for i := 0; i < n; i++ {
 			N := c.R.Range(1, 7)
+			if c.R.Chance(0.08) {
+				N = c.R.Range(15, 40) // "all cell counts": past any plausible batching width
+			}
 			pick := func() int {
 				switch c.R.Intn(4) {
 				case 0:
